@@ -741,6 +741,11 @@ func cmdCheck(args []string) int {
 		"sequential execution; sync/atomic and mutexes have single-thread semantics",
 		"package init executed leniently and concretely; values init could not compute are opaque and cut any path that reads them",
 	}
+	for _, h := range sel {
+		if h.Func == "H_C18_lazy_publish_order" {
+			ev.Assumptions = append(ev.Assumptions, "assertions labelled 'ordering:' (publication log, harness H_C18_lazy_publish_order) are observed in the symbolic heap; a native sequential replay of such a counterexample confirms only that the input reaches the assertion site")
+		}
+	}
 	ev.WallS = time.Since(t0).Seconds()
 	evDir := envOr("VERIF_EVIDENCE_DIR", filepath.Join(verifDir, "evidence"))
 	os.MkdirAll(evDir, 0o755)
